@@ -120,6 +120,14 @@ def direct_resume(ctx, db):
             seen.add(site)
             o = value_origin(f, f.ev(e.get('recv_ev'))) if e.get('recv_ev') is not None and f.ev(e.get('recv_ev')) is not None else value_origin(f, e.get('recv') or '')
             oc = norm((o or {}).get('callee') or '')
+            if o is not None and o.get('callee_key') and oc.startswith('cocls::'):
+                # a library helper that just hands out a handle (get_handle() { return coroutine_handle<P>::from_promise(*this); }): the kind of what it returns
+                g_ = db.get(o['callee_key'], o.get('callee_inst'))
+                rets_ = [x for x in (g_.events() if g_ is not None else []) if x.k == 'return']
+                if g_ is not None and len(rets_) == 1 and rets_[0].get('ret_ev') is not None and g_.ev(rets_[0]['ret_ev']) is not None:
+                    o2 = value_origin(g_, g_.ev(rets_[0]['ret_ev']))
+                    if o2 is not None and norm(o2.get('callee') or '') in ('std::coroutine_handle::from_promise',):
+                        oc = norm(o2['callee'])
             kind = None
             if f['nname'] == 'cocls::coro_queue::queue_impl::flush_queue':
                 kind = 'K2 drain loop'
